@@ -8,6 +8,10 @@
 (*       name server) whether what arrives equals what was sent            *)
 (*  pair two accepted URIs: eq, hash_eq, and same = same protocol, object, *)
 (*       host, port and socket name                                        *)
+(*  made a daemon is asked to register an object under an id and hands out *)
+(*       a uri for it (unless it refuses the id): the text of that uri     *)
+(*       must be accepted again and designate that id at that daemon,      *)
+(*       also after a trip through each serializer                         *)
 (***************************************************************************)
 EXTENDS Naturals, Sequences, TLC, Json, IOUtils
 Traces == JsonDeserialize(IOEnv.TRACE_FILE)
@@ -25,6 +29,12 @@ Check(x) ==
        ELSE IF ~x.reparse_eq THEN "C19.TextFormParsesToDifferentURI"
        ELSE IF ~x.fixed THEN "C19.TextFormNotFixedPoint"
        ELSE IF ~x.hash_ok THEN "C19.EqualButDifferentHash"
+       ELSE IF FirstBadRoute(x) # "" THEN "C19.ChangedInTransit." \o FirstBadRoute(x)
+       ELSE ""
+    ELSE IF x.kind = "made" THEN
+       IF x.refused THEN ""
+       ELSE IF ~x.reparse_ok THEN "C19.TextFormNotAccepted"
+       ELSE IF ~x.designates THEN "C19.HandedOutUriDesignatesAnother"
        ELSE IF FirstBadRoute(x) # "" THEN "C19.ChangedInTransit." \o FirstBadRoute(x)
        ELSE ""
     ELSE
